@@ -70,6 +70,37 @@ def ev(expr, data):
     return p.evaluate(data=data, context=_ctx)
 
 
+# ---- engines with other options -----------------------------------------------------------------
+_cfg_engines = {}
+
+
+def ev_on(cfg, expr, data):
+    """Evaluate on an engine built with the given options.  cfg: "legacy" or a tuple of (option, value) pairs."""
+    ent = _cfg_engines.get(cfg)
+    if ent is None:
+        if cfg == "legacy":
+            from yaql import legacy
+            ent = (legacy.YaqlFactory().create(), legacy.create_context(), {})
+        else:
+            ent = (yaql.YaqlFactory().create(options=dict(cfg)), yaql.create_context(), {})
+        _cfg_engines[cfg] = ent
+    eng, ctx, parsed = ent
+    pe = parsed.get(expr)
+    if pe is None:
+        pe = parsed[expr] = eng(expr)
+    return pe.evaluate(data=data, context=ctx)
+
+
+def run_call_on(cfg, call):
+    try:
+        e, d = expr_of(call)
+        return canon(call[0], ev_on(cfg, e, d))
+    except ValueError:
+        return ("err", 1)
+    except Exception as e:
+        return ("foreign", type(e).__name__)
+
+
 class Unspec:
     def __repr__(self):
         return "UNSPEC"
@@ -1321,6 +1352,255 @@ def case_mapping_cases(run, rep, rng):
     rep.flush()
 
 
+# ---------------------------------------------------------------------------------
+# engines with yaql.memoryQuota / yaql.limitIterators: a call whose arguments and result fit must give the
+# model's value; the options may only turn what does NOT fit into their own exceptions
+# ---------------------------------------------------------------------------------
+QUOTA_EXC = ("MemoryQuotaExceededException", "CollectionTooLargeException")
+
+
+def quota_cfg(q, l):
+    return (("yaql.limitIterators", l), ("yaql.memoryQuota", q))
+
+
+def fits_quota(call, plain, q, l):
+    """Every value the evaluation of the one-call expression handles - the data document, each argument, the
+    result and its elements - is within the memory quota, and every collection within the iterator limit."""
+    from yaql.language import utils as yutils
+    _, data = expr_of(call)
+    vals = [yutils.convert_input_data(data)] + [yutils.convert_input_data(v) for v in data.values()]
+    if plain[0] == "str":
+        vals.append(plain[1])
+        if call[0] == "characters":
+            vals.append(tuple(plain[1]))
+    elif plain[0] == "strs":
+        vals.append(tuple(plain[1]))
+    elif plain[0] in ("foreign", "err"):
+        return False
+    sizes, lens = [], []
+    for v in vals:
+        sizes.append(sys.getsizeof(v))
+        if isinstance(v, (tuple, list, dict)) or hasattr(v, "items"):
+            lens.append(len(v))
+            for x in (v.values() if hasattr(v, "values") else v):
+                sizes.append(sys.getsizeof(x))
+                if isinstance(x, (tuple, list)):
+                    lens.append(len(x))
+                    sizes += [sys.getsizeof(y) for y in x]
+    if call[0] == "mul":
+        # repetition estimates before it computes (C08: repetition_refuses_first); for ASCII text the estimate is the
+        # size of the result.  Only non-negative-ish counts on ASCII text are claimed here.
+        if not call[1].isascii() or call[2] < -2:
+            return False
+    return max(sizes) <= q and (l < 0 or all(n <= l for n in lens))
+
+
+def quota_calls(rng, q, quick):
+    """Calls whose sizes sweep the threshold getsizeof(result) = quota from both sides, plus random small ones."""
+    empty = sys.getsizeof("")
+    out = []
+    lefts = ["a", "ab", "abcab", "a b c d e f g h i j"] if q < 5000 else ["ab", "a b c d e f g h i j"] if q == 5000 else ["a b c d e f g h i j", "abcab abcab abcab abcab abcab abcab abcab"]
+    for left in lefts:
+        th = (q - empty) // len(left)
+        counts = set(range(max(0, th - 3), th + 4)) | {0, 1, 2, 3, th // 2, th // 3 + 1, (2 * th) // 3, -1, -2}
+        if quick and q >= 5000:
+            counts = {th - 1, th, th + 1, th // 2}
+        for n in sorted(counts):
+            out.append(("mul", left, n, n % 2))
+    if q <= 1000:
+        # long ASCII texts whose own size sweeps the quota: the argument, or the result, is what does or does not fit
+        for size in range(q - 3, q + 3):
+            n = size - empty
+            text = ("ab " * n)[:n]
+            out += [("upper", text), ("trim", text, None), ("substring", text, 0, None), ("replace", text, "b", "b", None),
+                    ("len", text), ("indexOf", text, "b a", None), ("split", text, " ", 2), ("in", "ba", text),
+                    ("endsWith", text, ("b ", "a"))]
+            half = n // 2
+            out += [("concat", (text[:half], text[half:]), 0), ("concat", (text[:half], text[half:]), 1),
+                    ("join", (text[:half], text[half:n - 1]), "-", 0),
+                    ("replace", text[:half], "ab", "abab", None), ("replace", text[:n - n // 3], "a", "aa", None)]
+        for n in (20, 48, 49, 50, 51, 52):
+            out += [("toCharArray", "ab" * (n // 2) + "a" * (n % 2)), ("split", "a " * n, None, None), ("split", "a," * (n - 1) + "a", ",", None)]
+    out += [random_call(rng) for _ in range(150 if quick else 1500)]
+    return [c for c in out if c[0] not in ("characters",) or True]
+
+
+def quota_cases(run, rep, rng):
+    cfgs = [(600, -1), (1000, 50), (5000, -1), (20000, 1000)]
+    terms, meta = [], []
+    for q, l in cfgs:
+        cfg = quota_cfg(q, l)
+        for call in quota_calls(rng, q, run.quick):
+            plain = run_call(call)
+            obs = run_call_on(cfg, call)
+            fits = fits_quota(call, plain, q, l)
+            run.case(("quota", q, l, call), nontrivial=True)
+            run.count("quota:%d/%d %s" % (q, l, "fits" if fits else "does-not-fit"))
+            run.count("quota-obs:" + (obs[1] if obs[0] == "foreign" else "value"))
+            if fits:
+                if call[0] in ("upper", "lower") and not call[1].isascii():
+                    if obs != plain:
+                        judge_quota(rep, call, obs, plain, q, l, True)
+                    continue
+                terms.append("(%s, %s)" % (call_term(call), res_term(obs)))
+                meta.append((call, obs, plain, q, l))
+            elif obs != plain and not (obs[0] == "foreign" and obs[1] in QUOTA_EXC):
+                judge_quota(rep, call, obs, plain, q, l, False)
+    for i in run.coq_mismatches(HEADER, "case", "case_ok", terms, shard=150):
+        call, obs, plain, q, l = meta[i]
+        if obs != plain:
+            judge_quota(rep, call, obs, plain, q, l, True)
+        else:
+            judge_string(rep, call, obs)
+    rep.flush()
+
+
+def judge_quota(rep, call, obs, plain, q, l, fits):
+    e, d = expr_of(call)
+    short = lambda v: v if len(repr(v)) < 300 else repr(v)[:300] + "..."
+    data = {"kind": "quota", "call": list(call) if len(repr(call)) < 3000 else None, "expression": e,
+            "data": {k: short(v) for k, v in d.items()}, "options": {"yaql.memoryQuota": q, "yaql.limitIterators": l},
+            "observed": [short(x) for x in obs], "required": [short(x) for x in plain],
+            "result_bytes": sys.getsizeof(plain[1]) if plain[0] == "str" else None, "found_by": "C"}
+    if fits:
+        rep.add("violation", "%s under yaql.memoryQuota/limitIterators: arguments and result fit the limits but the model's value is "
+                "not returned (%s)" % (call[0], "raises %s" % obs[1] if obs[0] == "foreign" else "wrong value"), data)
+    else:
+        rep.add("violation", "%s under yaql.memoryQuota/limitIterators: a result that does not fit is neither returned nor refused "
+                "with the quota's own exception" % call[0], data)
+
+
+# ---------------------------------------------------------------------------------
+# the KIND of value the collection-returning functions produce (Model/StringKinds.v)
+# ---------------------------------------------------------------------------------
+KIND_FUNCS = [("FToCharArray", "$.s.toCharArray()"), ("FSplit", "$.s.split($.x)"), ("FSplitWs", "$.s.split()"),
+              ("FRightSplit", "$.s.rightSplit($.x)"), ("FCharacters", "characters(octdigits => true)"),
+              ("FRegexSplit", "regex($.x).split($.s)"), ("FRegexSplitStr", "$.s.split(regex($.x))"),
+              ("FSearchAll", "regex($.x).searchAll($.s)"), ("FSearchAllSel", "regex($.x).searchAll($.s, $.value)")]
+SPLIT_FAMILY = ("FSplit", "FSplitWs", "FRightSplit", "FRegexSplit", "FRegexSplitStr")
+RAW_CFG = (("yaql.convertOutputData", False),)
+OUT_CFGS = [(t, s_, (("yaql.convertSetsToLists", s_), ("yaql.convertTuplesToLists", t))) for t in (True, False) for s_ in (True, False)]
+
+
+def raw_kind(v):
+    if type(v) is tuple:
+        return "RKTuple"
+    if type(v) is list:
+        return "RKList"
+    if hasattr(v, "__next__") or (hasattr(v, "__iter__") and not isinstance(v, (str, bytes, dict, set, frozenset, tuple, list))):
+        return "RKIter"
+    return "RKOther"
+
+
+def fin_kind(v):
+    return "FKList" if type(v) is list else "FKTuple" if type(v) is tuple else "FKOther"
+
+
+def kind_census(fn, expr, data):
+    """-> (raw kind before finalisation, [(convertTuplesToLists, finalised kind)], finalised values)"""
+    try:
+        raw = raw_kind(ev_on(RAW_CFG, expr, data))
+    except Exception as e:
+        raw = "RKOther"
+    fins, values = [], []
+    for t, s_, cfg in OUT_CFGS:
+        try:
+            v = ev_on(cfg, expr, data)
+            fins.append((t, fin_kind(v)))
+            values.append(list(v) if isinstance(v, (list, tuple)) else repr(v))
+        except Exception as e:
+            fins.append((t, "FKOther"))
+            values.append("raises " + type(e).__name__)
+    try:
+        v = ev_on("legacy", expr, data)
+        fins.append((False, fin_kind(v)))
+        values.append(list(v) if isinstance(v, (list, tuple)) else repr(v))
+    except yexc.YaqlException:
+        pass                    # the legacy grammar / library does not have this spelling
+    except Exception as e:
+        fins.append((False, "FKOther"))
+        values.append("raises " + type(e).__name__)
+    return raw, fins, values
+
+
+def kind_cases(run, rep, rng):
+    terms, meta = [], []
+    inputs = [("a b", " "), ("", "a"), ("abab", "b"), ("a\U0001F600b a", "a")] + [(rstr(rng, 6), rng.choice("ab ")) for _ in range(run.n(4, 40))]
+    for fn, expr in KIND_FUNCS:
+        for s_, x in inputs:
+            data = {"s": s_, "x": x}
+            raw, fins, values = kind_census(fn, expr, data)
+            run.case(("kind", fn, s_, x), nontrivial=True)
+            run.count("kind:%s raw=%s" % (fn, raw))
+            terms.append("(%s, %s, %s)" % (fn, raw, gal.lst(gal.pair(gal.boolean(t), k) for t, k in fins)))
+            meta.append((fn, expr, data, raw, fins, values))
+            # the finalised values themselves do not depend on the output options
+            ref0 = values[0]
+            if any(v != ref0 for v in values):
+                rep.add("violation", "%s: the finalised elements differ between output-option engines" % fn,
+                        {"kind": "collection-kind", "function": fn, "expression": expr, "data": data, "raw": raw,
+                         "finalised": values, "found_by": "C"})
+    for i in run.coq_mismatches(HEADER + "\nFrom YV Require Import Model.StringKinds.", "kcase", "kcase_ok", terms, shard=400):
+        fn, expr, data, raw, fins, values = meta[i]
+        rep.add("violation", "%s: the returned value is not the documented kind (raw %s; a yaql list is an immutable tuple, "
+                "searchAll a lazy sequence)" % (fn, raw),
+                {"kind": "collection-kind", "function": fn, "expression": expr, "data": data, "raw": raw,
+                 "finalised_kinds": [[t, k] for t, k in fins], "found_by": "C"})
+    rep.flush()
+
+
+# the result used as a VALUE: F is the call on the string `$`; F_s the same on `$.s`
+USE_FUNCS = [("FToCharArray", "$.toCharArray()", lambda s: [ch for ch in s]),
+             ("FSplit", '$.split(" ")', lambda s: ref_split(s, " ", -1)),
+             ("FSplitWs", "$.split()", lambda s: ref_wsplit(s, -1)),
+             ("FRightSplit", '$.rightSplit("a", 1)', lambda s: ref_split(s, "a", 1, True)),
+             ("FCharacters", "characters(octdigits => true, whitespace => true)", None),
+             ("FRegexSplit", 'regex("a").split($)', lambda s: ref_split(s, "a", -1)),
+             ("FRegexSplitStr", '$.split(regex("a"))', lambda s: ref_split(s, "a", -1)),
+             ("FSearchAll", 'regex("a.?").searchAll($).toList()', lambda s: re.findall("a.?", s))]
+USE_LAWS = [("equals the list literal", "{Fs} = $.l", True),
+            ("is found by indexOf / in", "[{Fs}].indexOf($.l) = 0 and ($.l in [{Fs}])", True),
+            ("distinct() accepts it", "[$.s, $.s].select({F}).distinct().len()", 1),
+            ("toSet() accepts it", "[$.s, $.s].select({F}).toSet().len()", 1),
+            ("is a dictionary key", "dict([$.s].select([{F}, 1])).len()", 1),
+            ("groupBy key", "[$.s, $.s].groupBy({F}).len()", 1)]
+
+
+def use_laws(run, rep, rng):
+    subjects = ["", "a", "ab", "a b", "ba ab", "aaa", "é a"] + [rstr(rng, 6, "ab ") for _ in range(run.n(5, 60))]
+    for fn, f, model in USE_FUNCS:
+        for s_ in subjects:
+            for name, tmpl, required in USE_LAWS:
+                if model is None and "{Fs}" in tmpl:
+                    continue
+                expr = tmpl.replace("{Fs}", f.replace("$", "$.s", 1) if "$" in f else f).replace("{F}", f)
+                data = {"s": s_, "l": model(s_) if model else []}
+                run.count("O:use-laws")
+                try:
+                    v = ev(expr, data)
+                except Exception as e:
+                    v = "raises " + type(e).__name__
+                if v != required or type(v) is not type(required):
+                    try:
+                        raw = raw_kind(ev_on(RAW_CFG, (f.replace("$", "$.s", 1) if "$" in f else f), data))
+                    except Exception:
+                        raw = "RKOther"
+                    rep.add("violation", "%s: the result cannot be used as the list value it is: it %s fails" % (fn, name),
+                            {"kind": "collection-use", "function": fn, "law": name, "expression": expr, "data": data,
+                             "observed": v, "required": required, "raw": raw, "found_by": "O"})
+
+
+def classify(failure, known_entries):
+    """F23: split / rightSplit / regex split return a mutable Python list instead of a yaql list (tuple)."""
+    d = failure.data
+    if d.get("kind") in ("collection-kind", "collection-use") and d.get("function") in SPLIT_FAMILY and d.get("raw") == "RKList" \
+            and "finalised" not in d:
+        for k in known_entries:
+            if k.get("id") == "F23":
+                return k.get("line", "F23")
+    return None
+
+
 def correspondence(run):
     rep = Reporter(run)
     rng = run.rng
@@ -1348,6 +1628,10 @@ def correspondence(run):
     rep.flush()
     # ---- toUpper / toLower on the regenerated simple case mapping (BMP) ----
     case_mapping_cases(run, rep, rng)
+    # ---- the same string functions on engines with yaql.memoryQuota / yaql.limitIterators ----
+    quota_cases(run, rep, rng)
+    # ---- kinds of the collection results: raw type before finalisation, finalised type per output option ----
+    kind_cases(run, rep, rng)
     # ---- regex ----
     rcalls = [fix_regex_call(r) for r in cr]
     for pat in FIXED_PATTERNS:
@@ -1518,6 +1802,8 @@ def oracle(run, deep):
         run.count("O:regex-twin")
         if tuple(ref_regex(rc, ms)) != tuple(obs):
             judge_regex(rep, rc, ms, obs, source="O")
+    # 5b. collection results used as VALUES (equality with the list literal, membership, hashing)
+    use_laws(run, rep, rng)
     # 6. the pinned white-space class against the running interpreter
     ws = [c for c in range(sys.maxunicode + 1) if chr(c).isspace()]
     pinned = list(range(9, 14)) + list(range(28, 33)) + [133, 160, 5760] + list(range(8192, 8203)) + [8232, 8233, 8239, 8287, 12288]
@@ -1570,6 +1856,28 @@ def replay(run, data):
             t = [ecase_term(rc, obs)]
             return not run.coq_mismatches(HEADER, "ecase", "ecase_ok", t) or bool(run.coq_mismatches(HEADER, "ecase", "ecase_fuel_ok", t))
         return True
+    if kind == "quota":
+        call = detuple_call(d["call"])
+        o = d["options"]
+        q, l = o["yaql.memoryQuota"], o["yaql.limitIterators"]
+        plain, obs = run_call(call), run_call_on(quota_cfg(q, l), call)
+        fits = fits_quota(call, plain, q, l)
+        print("replay: %s under %r: fits=%s observed %r required %r" % (d["expression"], o, fits, repr(obs)[:200], repr(plain)[:200]), flush=True)
+        return obs == plain or (not fits and obs[0] == "foreign" and obs[1] in QUOTA_EXC)
+    if kind == "collection-kind":
+        fn = d["function"]
+        raw, fins, values = kind_census(fn, d["expression"], d["data"])
+        print("replay: %s %r: raw kind %s, finalised %r" % (d["expression"], d["data"], raw, fins), flush=True)
+        t = "(%s, %s, %s)" % (fn, raw, gal.lst(gal.pair(gal.boolean(b), k) for b, k in fins))
+        return not run.coq_mismatches(HEADER + "\nFrom YV Require Import Model.StringKinds.", "kcase", "kcase_ok", [t]) \
+            and all(v == values[0] for v in values)
+    if kind == "collection-use":
+        try:
+            v = ev(d["expression"], d["data"])
+        except Exception as e:
+            v = "raises " + type(e).__name__
+        log_replay(d["expression"], d["data"], v, d["required"])
+        return v == d["required"] and type(v) is type(d["required"])
     if kind == "case":
         call = tuple(d["call"])
         obs = run_call(call)
